@@ -353,7 +353,7 @@ fn case(ctx: &Ctx, rt: &tokio::runtime::Runtime, case: u64, out: &mut Out) -> Op
         }
     }
     out.max("largest_bulk", frames.iter().map(|f| match f { RFrame::Bulk(b) => b.len() as u64, _ => 0 }).max().unwrap_or(0));
-    if out.samples.len() < 3 && case % 911 == 7 {
+    if out.samples.len() < 3 && (case % 911 == 7 || out.samples.is_empty()) {
         out.sample(json!({"case": case, "frames": frames.iter().map(brief).collect::<Vec<_>>(), "stream_bytes": all.len(), "segmentations": "all-at-once, byte-by-byte, every/sampled 2-way split, 6 random cut sets, every/sampled truncation of the last frame"}));
     }
     None
